@@ -3,9 +3,23 @@
 CONTRACTS = []
 
 
+REPLAY = {
+    "coco.hrstoppm": dict(tool="hrstoppm", opts=dict(width="width", height="height", skip="skip")),
+    "coco.rattoppm": dict(tool="rattoppm"),
+    "coco.mgetoppm": dict(tool="mgetoppm"),
+    "coco.cm3toppm": dict(tool="cm3toppm"),
+    "coco.pixtopgm": dict(tool="pixtopgm"),
+    "coco.maxtoppm": dict(tool="maxtoppm", opts=dict(arte="arte", newsroom="newsroom", cols="cols", rows="rows", skip="skip",
+                                                     ignore_header_errors="ignore_header_errors")),
+    "coco.veftopng": dict(tool="unsquash"),
+}
+
+
 def contract(**kw):
     kw.setdefault("tag", "*")
     kw.setdefault("name", kw["module"] + "." + kw["qualname"])
+    if kw["module"] in REPLAY:
+        kw.setdefault("replay", REPLAY[kw["module"]])
     CONTRACTS.append(kw)
     return kw
 
@@ -56,10 +70,27 @@ contract(module="coco.hrstoppm", qualname="convert", tag="C16",
 
 # the same closure when callers need its failure behaviour (C19: any byte string, short palettes included)
 DUMP_LOUD = dict(params=dict(x="int"), free=dict(palette="list", out="outstream"),
-                 requires=["0 <= x"],
+                 requires=["0 <= x", "implies(x < len(palette), 0 <= palette[x] and palette[x] <= 255)"],
                  raises_when=[("IndexError", "x >= len(palette)")],
                  writes=["px6r(palette[x])", "px6g(palette[x])", "px6b(palette[x])"],
                  arbitrary_entry_streams=True, raises=[], reveal=["px6r", "px6g", "px6b"])
+
+contract(module="coco.hrstoppm", qualname="convert.dump", tag="C19", **DUMP_LOUD)
+contract(module="coco.hrstoppm", qualname="convert", tag="C19", also=["C18"],
+         params=HRS_PARAMS, ghost_entry=HRS_GHOST,
+         # every byte string, every option value the validators admit
+         requires=["width >= 1", "height >= 1", "skip is None or skip >= 0"],
+         lemmas=["implies(width % 2 == 0, width*height == 2*(hw*height))"],
+         loops={
+             0: dict(inv=["n == 6*hw*jj"], lemmas=["hw*(jj+1) == hw*jj + hw"]),
+             1: dict(inv=["n == 6*(hw*jj + ii)"]),
+         },
+         ensures=[
+             dict(id="header", post="hdr == fmt('P6\\n{} {}\\n255\\n', width, height)", props=["C18", "C19"]),
+             dict(id="complete", post="n == 3*(width*height)", props=["C18", "C19"],
+                  known=[dict(finding="KF-C18-HRS-odd-width", when="width % 2 == 1")]),
+         ],
+         raises=[dict(id="loud", exc="*", allowed="True")])
 
 # ------------------------------------------------------------------ coco.rattoppm
 RAT_PARAMS = dict(input_image_stream="instream", output_image_stream="outstream")
@@ -226,7 +257,8 @@ contract(module="coco.veftopng", qualname="unsquash", tag="C17", also=["C19"],
 # ------------------------------------------------------------------ coco.pixtopgm
 contract(module="coco.pixtopgm", qualname="convert", tag="C19", also=["C18"],
          params=dict(input_image_stream="instream", output_image_stream="outstream"), requires=[],
-         loops={0: dict(inv=[]), 1: dict(inv=[])},
+         loops={0: dict(inv=["forall(0, len(s), lambda j: 0 <= s[j] and s[j] <= 255)"]),
+                1: dict(inv=["forall(0, len(s), lambda j: 0 <= s[j] and s[j] <= 255)"])},
          ensures=[dict(id="header", post="hdr == fmt('P5\\n{} {}\\n255\\n', side, side)", props=["C18", "C19"]),
                   dict(id="side", post="side >= 0 and side*side <= 2*L and 2*L < (side+1)*(side+1)", props=["C18"]),
                   dict(id="complete", post="n == side*side", props=["C18", "C19"],
